@@ -474,11 +474,11 @@ func account(c Case) {
 
 func TestSpec(t *testing.T) {
 	D := activeDialect()
-	o := &tgen.Opts{NoWideIDs: true, NoUnion: true, EnumI32Only: evid.KnownActive(classEnumHeader)}
+	o := &tgen.Opts{EnumI32Only: evid.KnownActive(classEnumHeader)}
 	if evid.Thorough() {
 		o.MaxDepth = 4
 	}
-	evid.Check(t, "Spec", 60000, func(rt *rapid.T) {
+	evid.Check(t, "Spec", 80000, func(rt *rapid.T) {
 		before := o.Avoided["enum-on-non-int32"]
 		c := genCase(rt, o)
 		for i := before; i < o.Avoided["enum-on-non-int32"]; i++ {
